@@ -27,7 +27,8 @@ CURS = ['USD', 'EUR', 'ACME', 'BTC']
 KINDS = ['bool', 'int', 'str', 'date', 'dec', 'set', 'amount', 'position', 'inventory', 'object', 'dict']
 PYTYPE = {'bool': bool, 'int': int, 'str': str, 'date': datetime.date, 'dec': Decimal, 'set': set, 'amount': amount.Amount,
           'position': position.Position, 'inventory': inventory.Inventory, 'object': object, 'dict': dict}
-DECS = [D('0'), D('1'), D('-1'), D('12.5'), D('-3.125'), D('1000'), D('0.001'), D('7.50'), D('-120.00'), D('99999.9'), D('2E+2'), D('0.000005')]
+DECS = [D('0'), D('1'), D('-1'), D('12.5'), D('-3.125'), D('1000'), D('0.001'), D('7.50'), D('-120.00'), D('-0.5'), D('99999.9'), D('2E+2'), D('0.000005'),
+        D('-0.05'), D('-0.50'), D('0.5'), D('-0.001')]
 
 
 def signature(mm):
